@@ -172,7 +172,71 @@ def gen_iterwalk(rng, tier):
 
 
 def impl_iterwalk(a):
-    return D.real_pump(a["_print"], "et")
+    el = D.real_pump(a["_print"], "et")
+    tr = D.real_pump(a["_print"], "et_tree")
+    if el != tr:
+        return {"err": "HARNESS:ElementTree tree and element sources differ"}
+    return el
+
+
+def impl_tree_serializer(a):
+    u = uni_of(a)
+    return D.real_infoset(u, u.from_val(a["value"]), "tree", indent=a["indent"],
+                          ignore_default_attributes=a.get("ignore_default_attributes", False))
+
+
+def impl_lxml_writer(a):
+    u = uni_of(a)
+    obj = u.from_val(a["value"])
+    decl = a.get("xml_declaration", True)
+    try:
+        text = D.real_write(u, obj, "lxml", indent=a["indent"], xml_declaration=decl,
+                            ignore_default_attributes=a.get("ignore_default_attributes", False))
+    except Exception as e:  # noqa: BLE001
+        return B.classify_exc(e)
+    from lxml import etree
+
+    i = text.index("?>\n") + 3 if text.startswith("<?xml") else 0
+    return {"ok": {"declaration": text[:i], "tree": D.lxml_tree_json(etree.fromstring(text[i:].encode("utf-8")))}}
+
+
+def gen_lxml_writer(rng, tier):
+    for a in gen_writers(rng, tier):
+        a["xml_declaration"] = rng.random() < 0.7
+        yield a
+
+
+def cmp_lxml_writer(mo, io, a):
+    if unsupported(mo):
+        return True
+    if "ok" in mo and "ok" in io:
+        return (mo["ok"]["declaration"] == io["ok"]["declaration"]
+                and D.resolve_prefixes(mo["ok"]["tree"]) == D.resolve_prefixes(io["ok"]["tree"]))
+    return mo == io
+
+
+def gen_hsource(rng, tier):
+    import os
+    import tempfile
+
+    texts = ["<r/>", "<a>é名</a>", "", "<?xml version='1.0'?><r>x</r>"]
+    for t in texts:
+        yield {"kind": "str", "text": t, "encoded": list(t.encode()), "bytes": [], "path": ""}
+        yield {"kind": "bytes", "text": "", "encoded": [], "bytes": list(t.encode()), "path": ""}
+        yield {"kind": "file", "text": "", "encoded": [], "bytes": list(t.encode()), "path": ""}
+    import pathlib
+
+    for name in ("a.xml", "sub/../b.xml", "./c d.xml"):
+        raw = os.path.join(tempfile.gettempdir(), name)
+        # `str(path.resolve())` is pathlib's: the model starts from the resolved name
+        yield {"kind": "path", "text": "", "encoded": [], "bytes": [], "path": str(pathlib.Path(raw).resolve()), "raw_path": raw}
+    yield {"kind": "et_tree", "text": "", "encoded": [], "bytes": [], "path": ""}
+    yield {"kind": "et_element", "text": "", "encoded": [], "bytes": [], "path": ""}
+
+
+def impl_hsource(a):
+    return D.real_hsource(a["kind"], a["text"], bytes(a["bytes"]), a.get("raw_path") or a["path"] or None)
+
 
 
 def gen_inscope(rng, tier):
@@ -257,12 +321,6 @@ def first_diff(x, y, path="$"):
 
 
 def covered_writers(a, msg):
-    if a.get("indent"):
-        u = uni_of(a)
-        o = D.real_infoset(u, u.from_val(a["value"]), "lxml", indent=None,
-                           ignore_default_attributes=a.get("ignore_default_attributes", False))
-        if "ok" in o and D.has_mixed(o["ok"]):
-            return "C08-indent-mixed"
     return None
 
 
@@ -322,7 +380,7 @@ def impl_parse_all(a):
             res[f"{h}/{k}"] = D.real_parse(u, clazz, xml, h, k, cfg)[0]
     ref = res["native/bytes"]
     ev = None
-    if a.get("kind") == "valid" and cfg.get("fail_on_unknown_properties", True) and "ok" in ref:
+    if "ok" in ref:
         _, en, mn = D.real_events(u, clazz, xml, "native", "bytes", cfg)
         _, el, ml = D.real_events(u, clazz, xml, "lxml", "bytes", cfg)
         ev = en == el and mn == ml
@@ -398,9 +456,9 @@ def oracle_handlers(a):
             continue  # ElementTree has dropped the prefixes the content refers to (inherent)
         if r != ref:
             return f"{h}/{k} differs from native/bytes: " + first_diff(r, ref)
-    # below a SkipNode the native handler passes maps without the ancestors' declarations
-    # (SkipNode.ns_map = {}); nothing is bound there, so only documents parsed strictly are compared
-    if a.get("kind") == "valid" and cfg.get("fail_on_unknown_properties", True) and "ok" in ref:
+    # the native handler keeps the in-scope maps itself (bbc0c4d), so the recorded streams agree below
+    # skipped, wrapper and union nodes too: every document that parses is compared
+    if "ok" in ref:
         rn, en, mn = D.real_events(u, clazz, xml, "native", "bytes", cfg)
         rl, el, ml = D.real_events(u, clazz, xml, "lxml", "bytes", cfg)
         if en != el:
@@ -416,7 +474,7 @@ def covered_handlers(a, msg):
 
 ORACLES = [
     Oracle("writers_agree", gen_writers_oracle, oracle_writers, covered=covered_writers,
-           from_ops=("c08.native_tree", "c08.lxml_tree")),
+           from_ops=("c08.native_tree", "c08.lxml_tree", "c08.tree_serializer", "c08.lxml_writer")),
     Oracle("handlers_agree", gen_handlers, oracle_handlers, covered=covered_handlers,
            from_ops=("bind.parse", "c08.pump", "c08.iterwalk", "c08.inscope"), adapt=adapt_handlers),
 ]
@@ -427,6 +485,12 @@ CORRS = [
          describe="XmlSerializer(XmlEventWriter, indent) output re-read by lxml vs model (EventGenerator + EventHandler + indentation bookkeeping + reader)"),
     Corr("c08.lxml_tree", gen_writers, impl_lxml_tree, compare=cmp_lxml_tree, classify=classify_writers,
          describe="XmlSerializer(LxmlEventWriter, indent) re-read and TreeSerializer tree vs model (eventsTree + etree.indent as tree transformation)"),
+    Corr("c08.tree_serializer", gen_writers, impl_tree_serializer, compare=cmp_tree, classify=classify_writers,
+         describe="TreeSerializer(config).render(obj) vs the model of serializers/tree.py + LxmlTreeBuilder.build"),
+    Corr("c08.lxml_writer", gen_lxml_writer, impl_lxml_writer, compare=cmp_lxml_writer,
+         describe="XmlSerializer(LxmlEventWriter).render: declaration text and printed tree vs model"),
+    Corr("c08.hsource", gen_hsource, impl_hsource,
+         describe="PushParser.from_string/from_bytes/from_path/parse: the source handler.parse receives vs model toHSource"),
     Corr("c08.indent", gen_indent, impl_indent, canon=drop_ns, describe="lxml.etree.indent vs the modelled tree transformation"),
     Corr("c08.decl", gen_decl, impl_decl, describe="XmlWriter.start_document"),
     Corr("bind.parse", gen_parse_all, impl_parse_all, compare=cmp_parse_all, classify=classify_parse_all,
@@ -453,25 +517,7 @@ def _any():
 
 
 
-def finding_indent_mixed():
-    from lxml import etree
-
-    from xsdata.formats.dataclass.serializers import XmlSerializer
-    from xsdata.formats.dataclass.serializers.config import SerializerConfig
-    from xsdata.formats.dataclass.serializers.writers import LxmlEventWriter, XmlEventWriter
-
-    AnyElement = _any()
-    o = AnyElement(qname="r", children=[AnyElement(qname="m", text="t", children=[AnyElement(qname="a")])])
-    out = {}
-    for name, w in (("native", XmlEventWriter), ("lxml", LxmlEventWriter)):
-        xml = XmlSerializer(config=SerializerConfig(indent="  "), writer=w).render(o)
-        out[name] = etree.fromstring(xml.encode()).find("m").text
-    return out["native"] != out["lxml"], repr(out)
-
-
-FINDINGS = {
-    "C08-indent-mixed": finding_indent_mixed,
-}
+FINDINGS = {}
 
 TRUSTED = [
     "expat / libxml2 tokenisers, lxml's ElementTreeContentHandler, etree.tostring and XMLGenerator's text output are external: "
@@ -488,6 +534,6 @@ ASSUMPTIONS = [
 LEVEL_TEXT = "proof for the Python glue of the back-ends (indentation bookkeeping, prefix-map reconstruction); agreement with the C back-ends by correspondence"
 LEVEL_NOTE = (
     "native_nsmap_inscope holds at full strength for all documents of the model (the handler keeps the in-scope maps itself); "
-    "indent_ws_only is proved for all event lists without mixed content, the full-strength statement is refuted by a witness "
-    "that the real code shows too (mixed content under indentation)"
+    "indent_ws_only holds at full strength too (mixed content included) since the native writer writes no indentation right "
+    "after character data"
 )
